@@ -333,7 +333,130 @@ def check(ctx, rng, kind, ptr, endian, align, compiled):
             pass
 
 
+def _enc(v, width, endian):
+    return int(v).to_bytes(width, "little" if endian == "<" else "big")
+
+
+def reconfigured_width(ctx, rng):
+    """The pointer type of a cstruct object is changed between two loads: structures defined afterwards use the new
+    width for layout, value and dump, also for a target type that already had a pointer type before the change.
+    (Structures defined before the change are not judged: the property does not say which width they keep.)"""
+    import io
+
+    for w1 in PTR_TYPES:
+        for w2 in PTR_TYPES:
+            if w1 == w2:
+                continue
+            for endian in "<>":
+                for compiled in (True, False):
+                    width = ALL_INTS[w2][0]
+                    text_a = "struct A { uint8 lead; uint16 *p; uint8 x; };"
+                    text_b = "struct B { uint8 lead; uint16 *p; uint8 x; uint16 *q[2]; uint8 y; };"
+                    detail = {"text": text_a + "\n" + text_b, "first_pointer_type": w1, "second_pointer_type": w2,
+                              "endian": endian, "compiled": compiled, "workload": "reconfigured-width"}
+                    ctx.evaluation(("reconfigured", w1, w2, endian, compiled))
+                    ctx.cell("reconfigured-width")
+                    try:
+                        cs = lib.cstruct(endian=endian, pointer=w1)
+                        cs.load(text_a, compiled=compiled)
+                        cs.A(bytes(1 + ALL_INTS[w1][0] + 1))
+                        cs.pointer = cs.resolve(w2)
+                        cs.load(text_b, compiled=compiled)
+                        B = cs.B
+                    except Exception as e:  # noqa: BLE001
+                        ctx.violation("width", f"reconfigured:load-fails:{type(e).__name__}", dict(detail, error=lib.exc_sig(e)))
+                        continue
+                    want_size = 3 + 3 * width
+                    if len(B) != want_size or B.fields["p"].type.size != width:
+                        ctx.violation("width", "reconfigured:pointer-field-width-differs-from-configured-pointer-type",
+                                      dict(detail, size=len(B), want=want_size, field_size=B.fields["p"].type.size))
+                        continue
+                    top = (1 << (8 * width)) - 1
+                    addrs = [rng.choice([top, top - 1, (top >> 1) + 1, rng.randint(1, top)]) for _ in range(3)]
+                    addrs[0] = want_size  # dereferencable: the uint16 right behind the structure
+                    raw = (bytes([0x11]) + _enc(addrs[0], width, endian) + bytes([0x5A]) + _enc(addrs[1], width, endian)
+                           + _enc(addrs[2], width, endian) + bytes([0xC3]))
+                    tail = bytes([0x34, 0x12]) if endian == "<" else bytes([0x12, 0x34])
+                    st = io.BytesIO(raw + tail)
+                    try:
+                        o = B(st)
+                        got = (int(o.lead), int(o.p), int(o.x), [int(v) for v in o.q], int(o.y), st.tell())
+                        d = o.dumps()
+                        dv = int(o.p.dereference())
+                    except Exception as e:  # noqa: BLE001
+                        ctx.violation("width", f"reconfigured:parse-fails:{type(e).__name__}", dict(detail, error=lib.exc_sig(e)))
+                        continue
+                    want = (0x11, addrs[0], 0x5A, addrs[1:], 0xC3, want_size)
+                    if got != want:
+                        ctx.violation("value", "reconfigured:pointer-value-or-neighbour-differs", dict(detail, got=got, want=want))
+                    elif d != raw:
+                        ctx.violation("dump", "reconfigured:dump-differs-from-input", dict(detail, got=d, want=raw))
+                    elif dv != 0x1234:
+                        ctx.violation("deref", "reconfigured:dereference-differs", dict(detail, got=dv))
+                    else:
+                        ctx.event("reconfigured_width_checked")
+
+
+def context_targets(ctx, rng):
+    """Targets whose size is an expression over members of the structure holding the pointer (typedef'd array with
+    an expression length): dereferencing parses them in the context of that structure, whether the member is
+    declared before or after the pointer."""
+    import io
+
+    text = ("typedef uint16 items_t[count];\n"
+            "struct first { uint8 count; items_t *items; uint8 end; };\n"
+            "struct last { items_t *items; uint8 count; uint8 end; };\n"
+            "struct both { items_t *items[2]; uint8 count; uint8 end; };\n")
+    for ptr in PTR_TYPES:
+        width = ALL_INTS[ptr][0]
+        for endian in "<>":
+            for compiled in (True, False):
+                detail = {"text": text, "cfg": {"ptr": ptr, "endian": endian, "compiled": compiled},
+                          "workload": "context-targets"}
+                try:
+                    cs = lib.cstruct(endian=endian, pointer=ptr)
+                    cs.load(text, compiled=compiled)
+                except Exception as e:  # noqa: BLE001
+                    ctx.violation("load", f"context-target:load-fails:{type(e).__name__}", dict(detail, error=lib.exc_sig(e)))
+                    continue
+                for name in ("first", "last", "both"):
+                    count = rng.randint(0, 5)
+                    vals = [[rng.randrange(1 << 16) for _ in range(6)] for _ in range(2)]
+                    a1, a2 = 0x30, 0x40
+                    pt = [_enc(a1, width, endian), _enc(a2, width, endian)]
+                    head = {"first": bytes([count]) + pt[0] + b"\x99", "last": pt[0] + bytes([count]) + b"\x99",
+                            "both": pt[0] + pt[1] + bytes([count]) + b"\x99"}[name]
+                    buf = head.ljust(a1, b"\xcc") + b"".join(_enc(v, 2, endian) for v in vals[0])
+                    buf = buf.ljust(a2, b"\xcc") + b"".join(_enc(v, 2, endian) for v in vals[1])
+                    st = io.BytesIO(buf)
+                    ctx.evaluation(("context-target", ptr, endian, compiled, name, count))
+                    ctx.cell("context-target:" + name)
+                    try:
+                        o = getattr(cs, name)(st)
+                        pos = st.tell()
+                        ptrs = [o.items] if name != "both" else list(o.items)
+                        for k, pp in enumerate(ptrs):
+                            one, two = list(pp.dereference()), list(pp.dereference())
+                            if one != vals[k][:count] or two != one:
+                                ctx.violation("deref", "context-target:dereference-differs-from-parse-at-address",
+                                              dict(detail, struct=name, got=one, again=two, want=vals[k][:count]))
+                                break
+                            if st.tell() != pos:
+                                ctx.violation("position", "context-target:dereference-moves-the-stream",
+                                              dict(detail, struct=name))
+                                break
+                        else:
+                            ctx.event("context_target_checked")
+                    except Exception as e:  # noqa: BLE001
+                        ctx.violation("deref", f"context-target:dereference-fails:{type(e).__name__}",
+                                      dict(detail, struct=name, count=count, error=lib.exc_sig(e)))
+
+
 def run(ctx):
+    if ctx.shard % 8 == 1:
+        reconfigured_width(ctx, ctx.rng("reconfigured"))
+    if ctx.shard % 8 == 2:
+        context_targets(ctx, ctx.rng("context-targets"))
     combos = [(k, p, e, a, c) for k in ("scalar", "float", "char", "struct", "ptrptr") for p in PTR_TYPES
               for e in ("<", ">") for a in (False, True) for c in (True, False)]
     reps = 1 if not ctx.thorough else 12
@@ -352,6 +475,12 @@ def replay(ctx, detail):
 
     print("definition:\n" + detail.get("text", ""))
     print({k: v for k, v in detail.items() if k not in ("ast", "text")})
+    if detail.get("workload") == "reconfigured-width":
+        reconfigured_width(ctx, random.Random(0))
+        return
+    if detail.get("workload") == "context-targets":
+        context_targets(ctx, random.Random(0))
+        return
     cfgd = detail["cfg"]
     for seed in range(8):
         check(ctx, random.Random(seed), detail.get("target", "scalar"), cfgd["ptr"], cfgd["endian"], cfgd["align"],
